@@ -477,12 +477,14 @@ func PullQueriesToRun(ctx context.Context) {
 			log.Info("PullQueriesToRun exiting")
 			return
 		default:
+			verifhook.At("q.pull.check")
 			if canRunQuery() {
 				wsData := getNextWaitStateData()
 				if wsData == nil {
 					time.Sleep(PULL_QUERY_INTERVAL)
 					continue
 				}
+				verifhook.At("q.pull.got", "qid", wsData.qid)
 				initiateRunQuery(wsData, segmentsRLockFunc, segmentsRUnlockFunc)
 			}
 			time.Sleep(PULL_QUERY_INTERVAL)
